@@ -179,6 +179,36 @@ def run_tree(rec, tier, seed, ti, spec, other):
         compare(rec, ti, "other-xml-encodings", res, out, ref, case)
         shutil.rmtree(out, ignore_errors=True)
         shutil.rmtree(enc_root, ignore_errors=True)
+        # the same documents written differently: attributes in reverse order, XML comments between the elements,
+        # CRLF line ends, no indentation - none of it is information
+        cos_root = os.path.join(work, "xml-cosmetics")
+        try:
+            import xml.etree.ElementTree as ET
+
+            for rel, text in files.items():
+                d = os.path.join(cos_root, rel) if rel else cos_root
+                os.makedirs(d, exist_ok=True)
+                root = ET.fromstring(text.encode("utf-8"))
+                for el in root.iter():
+                    el.attrib = dict(reversed(list(el.attrib.items())))
+                    if el.tail is not None and not el.tail.strip():
+                        el.tail = "\r\n"
+                    if len(el) and el.text is not None and not el.text.strip():
+                        el.text = "\r\n"
+                for el in list(root.iter()):
+                    if len(el) and el.tag in ("protocol", "struct", "packet", "enum", "chunked", "switch", "case"):
+                        el.insert(len(el) // 2, ET.Comment(" reviewed: %s " % el.tag))
+                        el.insert(0, ET.Comment(" note "))
+                with open(os.path.join(d, "protocol.xml"), "wb") as fh:
+                    fh.write(b"<?xml version='1.0' encoding='utf-8'?>\r\n<!-- generated for a test -->\r\n" + ET.tostring(root, encoding="utf-8"))
+            out = os.path.join(work, "out-cosmetics")
+            res = drive(stage.REPO, cos_root, out)
+            rec.count("configurations-compared")
+            rec.case((ti, "xml-cosmetics"))
+            compare(rec, ti, "xml-cosmetics", res, out, ref, case)
+            shutil.rmtree(out, ignore_errors=True)
+        finally:
+            shutil.rmtree(cos_root, ignore_errors=True)
         # into its own previous output
         res = drive(stage.REPO, xml_root, base_out)
         rec.count("configurations-compared")
